@@ -267,7 +267,13 @@ func (w *cworld) mutatingCalls() (n int, last tokCall) {
 }
 
 // VerifC11ConvertCoin: coin -> token.
-func VerifC11ConvertCoin() {
+func VerifC11ConvertCoin() { c11ConvertCoin() }
+
+var c11PanicMatters bool
+
+var panickedTag = "panicked-inside-transaction"
+
+func c11ConvertCoin() {
 	w := newConvWorld()
 	senderBytes := rt.Bytes("senderAddr")
 	rt.Assume(len(senderBytes) > 0)
@@ -288,7 +294,13 @@ func VerifC11ConvertCoin() {
 	rt.Assume(!common.IsHexAddress(denom))
 	var err error
 	if rt.Panics(func() { _, err = w.k.ConvertCoin(sdk.WrapSDKContext(w.ctx), msg) }) {
-		rt.Reach("panicked-inside-transaction")
+		if c11PanicMatters {
+			// behind the ICS-20 middleware a panic aborts the whole MsgRecvPacket: the transfer that would have succeeded on its
+			// own is never received or acknowledged (C16)
+			rt.Assert("M5-the-automatic-conversion-returns", false)
+			return
+		}
+		rt.Reach(panickedTag) // not a required witness: the conversion code need not have any panic path
 		return // a panic inside a message handler fails the transaction (baseapp recovery): nothing changes
 	}
 
@@ -370,7 +382,7 @@ func VerifC11ConvertERC20() {
 	rt.Assume(!common.IsHexAddress(denom))
 	var err error
 	if rt.Panics(func() { _, err = w.k.ConvertERC20(sdk.WrapSDKContext(w.ctx), msg) }) {
-		rt.Reach("panicked-inside-transaction")
+		rt.Reach(panickedTag) // not a required witness: the conversion code need not have any panic path
 		return
 	}
 
